@@ -10,9 +10,11 @@ def run(ck, ctx):
         "db2): after a two-column table body, ANY sequence of the group's catalogue clauses, both keyword spellings. O-accept; "
         "O-segment (no symbol spans two clauses, every fold starts at a clause begin); O-value: folding a clause adds exactly its "
         "documented key, the value under that key contains every value word of the clause as written, and nothing else on the "
-        "table changes (name, columns, keys, constraints, other clauses) - evaluated abstractly on the real action code.")
+        "table changes (name, columns, keys, constraints, other clauses) - evaluated abstractly on the real action code. O-mode (output "
+        "layer evaluated abstractly in the default mode, the owning dialect's mode and an unrelated mode): what the default mode reports "
+        "under table_properties is at top level in the owning mode, common fields are equal in all three, no mode raises.")
     from ..rules.fragments import run_fragments
-    run_fragments(ck, ctx, [dict(module="clauses", build_kw=dict(group=g, tier=ck.tier)) for g in GROUPS])
+    run_fragments(ck, ctx, [dict(module="clauses", build_kw=dict(group=g, tier=ck.tier, final=("modes",))) for g in GROUPS])
     ck.assumptions += ["words are separated as pre_process_data intends", "value post-processing of individual clauses is not decided "
                        "beyond 'contains the words as written'",
                        "placement at top level vs table_properties per output mode is decided by the C10 checks"]
